@@ -87,6 +87,21 @@ theorem inventory_covers_efuns :
         "lib/efuns/dump_prog.c", "lib/lpc/object.c", "src/simulate.c", "lib/lpc/lex.c",
         "lib/lpc/program/binaries.c"].all (fun f => scanned.contains f)) = true := by decide
 
+/-- the efuns the system-style harness calls and `NV.C15.efunEvents` models (props/c15.py: `exercised ()`;
+    `PropsSys.efunNames` with the prefix `f_`) -/
+def harnessEfuns : List String :=
+  ["f_read_file", "f_write_file", "f_rm", "f_mkdir", "f_rmdir", "f_file_size", "f_file_length", "f_tail",
+   "f_read_bytes", "f_read_buffer", "f_write_bytes", "f_write_buffer", "f_restore_object", "f_dumpallobj",
+   "f_dump_prog", "f_get_dir", "f_stat", "f_rename", "f_link", "f_cp", "f_save_object", "f_ed"]
+
+/-- EVERY efun implementation from which the call graph of the regenerated inventory reaches a file-system call
+    site (other than through `load_object` / `save_ed_buffer`, which are covered separately) is one of the
+    efuns the harness exercises and the model covers; the plugin additionally checks at run time that each of
+    them produced at least one libc file call in the run (tie broken otherwise). -/
+theorem efun_surface_modelled : fsEfuns.all (fun f => harnessEfuns.contains f) = true := by decide
+
+example : fsEfuns.length ≥ 20 := by decide
+
 /-- an unmediated site is rejected (non-vacuity of `siteOk`) -/
 example : siteOk { file := "lib/efuns/file.c", fn := "f_rmdir", callee := "rmdir", arg := 0, line := 76,
                    origin := .other "path <- sp->u.string" } = false := by decide
